@@ -51,11 +51,12 @@ def _build_overlay(edits, root):
 
 
 def _run_variant(args):
-    prop, kind, name, edits, expect, root = args
+    prop, kind, name, edits, expect, root = args[:6]
+    tier = args[6] if len(args) > 6 else 'quick'
     overlay, why = _build_overlay(edits, root)
     if overlay is None:
         return (kind, name, 'not_applicable', why)
-    res = core.analyse(prop, 'quick', Index(root, overlay=overlay))
+    res = core.analyse(prop, tier, Index(root, overlay=overlay))
     if res.code == 2:
         if kind == 'mutant':
             # an analysis error on a mutant is fail-closed (exit 2): the
@@ -87,8 +88,12 @@ def run_for_property(prop, jobs=16, seed=0, root=None, verbose=False):
     root = root or repo_root()
     muts, refs = variants(prop)
     work = []
-    for name, edits, expect in muts:
-        work.append((prop, 'mutant', name, edits, expect, root))
+    for mut in muts:
+        # (name, edits, expected rule[, tier]): whole-package OWNER clauses
+        # exist in the thorough tier only
+        name, edits, expect = mut[:3]
+        work.append((prop, 'mutant', name, edits, expect, root,
+                     mut[3] if len(mut) > 3 else 'quick'))
     for name, edits in refs:
         work.append((prop, 'refactor', name, edits, None, root))
     random.Random(seed).shuffle(work)
